@@ -240,6 +240,7 @@ func (s *r2Slots) summary(g *types.Func) *r2Lin {
 }
 
 func ruleR2FrameSlots(c *Ctx) []Obligation {
+	r2LoopCtx = c
 	roles := vmCompRoles(c)
 	comp := c.Pkg("homescript/compiler")
 	s := &r2Slots{c: c, roles: roles, localOps: map[*types.Const]bool{}, rec: map[*types.Func]bool{}, summ: map[*types.Func]*r2Lin{}, busy: map[*types.Func]bool{}, siteSlot: map[*ast.CallExpr]bool{}, siteWhy: map[*ast.CallExpr]string{}, walks: map[*types.Func]*vmWalkResult{}, summWhy: map[*types.Func]string{}}
@@ -326,17 +327,27 @@ func ruleR2FrameSlots(c *Ctx) []Obligation {
 			used := false
 			ast.Inspect(fn.fd.Body, func(m ast.Node) bool {
 				ic, ok := m.(*ast.CallExpr)
-				if !ok || CalleeOf(fi, ic) != roles.insert || len(ic.Args) == 0 {
+				if !ok || res == nil {
 					return true
 				}
-				ctor, ok := ast.Unparen(ic.Args[0]).(*ast.CallExpr)
-				if !ok || res == nil || !vmMentionsObj(fi, ctor, res) {
+				// an emission (primitive, forwarding wrapper, single-instruction helper) that carries the name
+				em, isEm := r2EmitIdx(c).of(fn, ic)
+				if !isEm {
+					return true
+				}
+				carries := false
+				for _, a := range em.args {
+					if a != nil && vmMentionsObj(fi, a, res) {
+						carries = true
+					}
+				}
+				if !carries {
 					return true
 				}
 				used = true
 				foundOp := false
-				for _, a := range ctor.Args {
-					if !types.Identical(fi.TypeOf(a), roles.opType) {
+				for _, a := range []ast.Expr{em.opExpr} {
+					if a == nil {
 						continue
 					}
 					foundOp = true
@@ -596,7 +607,9 @@ func ruleR2FrameSlots(c *Ctx) []Obligation {
 				case evCall:
 					if e.Fn == s.registrar {
 						late = "a variable name is registered"
-					} else if e.Fn != nil && e.Fn != roles.insert && roles.emitters[e.Fn] && !e.Deferred {
+					} else if e.Fn != nil && roles.byObj[e.Fn] != nil && !e.Deferred && s.canCreateSlot(e.Fn) {
+						// a callee that can register a variable name or touch the counter (a child
+						// compilation); pure emission helpers (epilogue, wrappers of insert) cannot
 						late = "a child compilation (" + e.Fn.Name() + ") runs"
 					}
 				case evIncDec:
@@ -624,6 +637,26 @@ func ruleR2FrameSlots(c *Ctx) []Obligation {
 		obs = append(obs, ob)
 	}
 	return obs
+}
+
+// canCreateSlot: g (transitively) reaches the registrar or writes the variable counter.
+func (s *r2Slots) canCreateSlot(g *types.Func) bool {
+	if s.mentionsRegistrar(g) {
+		return true
+	}
+	touches := func(h *types.Func) bool {
+		fn := s.roles.byObj[h]
+		return fn != nil && vmWritesField(fn.info, fn.fd.Body, s.counter)
+	}
+	if touches(g) {
+		return true
+	}
+	for h := range s.roles.reachableFrom(g) {
+		if touches(h) {
+			return true
+		}
+	}
+	return false
 }
 
 func (s *r2Slots) mentionsRegistrar(g *types.Func) bool {
